@@ -19,7 +19,7 @@ def fmt_op(o):
         return f"{k}(g{o['w']})"
     if k == "cv_wait":
         return f"cv_wait(cv{o['o']},m{o['v']},g{o['w']})"
-    if k in ("yield", "spin", "sleep", "park", "nop"):
+    if k in ("yield", "spin", "sleep", "park", "nop", "rand"):
         return k
     return f"{k}(o{o['o']},v{o['v']},w{o['w']})"
 
@@ -52,6 +52,9 @@ def fmt_problem(v):
             out.append(("  ok  " if i < m else "  ??  ") + fmt_ev(evs[i]))
         out.append("  spec state before the unmatched event: " + v["spec_state"][:1800])
     for k in ("outcomes", "impl_outcomes", "witness", "divergence", "errors", "detail", "stderr", "class", "input"):
+        if k == "detail" and isinstance(v.get(k), dict):
+            out.append("  detail: " + json.dumps(v[k])[:2500])
+            continue
         if k in v:
             out.append(f"  {k}: " + json.dumps(v[k])[:1500])
     return "\n".join(out)
@@ -79,10 +82,15 @@ def trace_signature(fam, diag):
     return f"{fam}/trace/{ev['e']}/after:{prev}"
 
 
-def family_pipeline(fam, progs, outdir, cap=20000, do_mc=True, workers=8, max_diag=6, clock=False):
-    """Run one program family through enumeration, trace-trie validation and outcome comparison."""
+def family_pipeline(fam, progs, outdir, cap=20000, do_mc=True, workers=8, max_diag=6, clock=False, sample=None):
+    """Run one program family through enumeration (or, with sample=iters, sampling under the built-in
+    schedulers with the record/replay differential), trace-trie validation and outcome comparison."""
     t0 = time.time()
-    meta, t_enum = vlib.run_enum(progs, outdir, cap=cap, clock=clock)
+    extra = ()
+    if sample:
+        extra = ("--mode", "sample", "--iters", str(sample), "--seed", str(vlib.seed()), "--slen")
+        do_mc = False
+    meta, t_enum = vlib.run_enum(progs, outdir, cap=cap, clock=clock, extra=extra)
     by_id = {p["id"]: p for p in progs}
     problems = []
     crashed = [m for m in meta if m.get("crashed")]
@@ -94,6 +102,16 @@ def family_pipeline(fam, progs, outdir, cap=20000, do_mc=True, workers=8, max_di
         problems.append({"kind": "nondeterminism", "prog": by_id[m["prog"]], "detail": m["nondet"],
                          "sig": f"{fam}/nondeterministic-offered-list"})
     execs = sum(m.get("execs", 0) for m in meta)
+    replays = 0
+    for m in meta:
+        replays += m.get("replays", 0)
+        seen = set()
+        for mm in m.get("mismatches", []):
+            sig = f"{fam}/{mm['kind']}/{mm.get('variant', 'string')}/{mm.get('sched', '-')}"
+            if sig in seen:
+                continue
+            seen.add(sig)
+            problems.append({"kind": "replay-mismatch", "prog": by_id[m["prog"]], "detail": mm, "sig": sig})
     reached, leaves, tres = vlib.validate_trie(outdir, workers=workers)
     if not tres["ok"]:
         problems.append({"kind": "tlc-error", "where": "TraceShuttle", "errors": tres["errors"][:5],
@@ -122,7 +140,7 @@ def family_pipeline(fam, progs, outdir, cap=20000, do_mc=True, workers=8, max_di
     summary = {"family": fam, "programs": len(progs), "executions": execs, "trie_nodes": tres.get("nodes", 0),
                "leaves": len(leaves), "leaves_reached": len(leaves & reached),
                "trace_states": tres["states"], "trace_transitions": tres["transitions"],
-               "capped": sum(1 for m in meta if m.get("capped")), "t_enum": round(t_enum, 1),
+               "capped": sum(1 for m in meta if m.get("capped")), "replays": replays, "t_enum": round(t_enum, 1),
                "t_trace": round(tres["wall"], 1)}
     if do_mc:
         spec_outs, mres = vlib.run_mc(os.path.join(outdir, "progs.ndjson"), outdir, workers=workers)
@@ -178,11 +196,22 @@ def family_pipeline(fam, progs, outdir, cap=20000, do_mc=True, workers=8, max_di
 # ---------------------------------------------------------------------------------------------
 # Property table.  Each stage: (family, programs quick, programs thorough, do_mc)
 
-def F(fam, q, t, mc=True):
-    return {"fam": fam, "quick": q, "thorough": t, "mc": mc}
+def F(fam, q, t, mc=True, sample=None):
+    return {"fam": fam, "quick": q, "thorough": t, "mc": mc, "sample": sample}
+
+
+def S(fam, q, t):
+    """sampled under random/urw/dfs/rr/pct with the record/replay differential"""
+    return {"fam": fam, "quick": q, "thorough": t, "mc": False, "sample": (25, 200)}
 
 
 SHUTTLE_PROPS = {
+    "C01": {"stages": [S("kernel_rand", 10, 100), S("mutex", 8, 100), S("condvar", 8, 100), S("mpsc", 8, 100),
+                       S("rwlock", 6, 80), S("park", 8, 80), S("barrier", 6, 80), S("once", 6, 80),
+                       S("sem_fair", 6, 80), S("sem_unfair", 6, 80), S("corpus_deadlock", 0, 0), S("corpus_locks", 0, 0)],
+            "kinds": {"replay-mismatch", "trace-rejected", "nondeterminism", "harness-crash", "tlc-error"},
+            "assume": ["schedulers: random, urw, dfs (with random data), round-robin, pct(depth 3), fixed seeds from VERIF_SEED",
+                       "replayed through ReplayScheduler::new_from_encoded (with/without line breaks), shuttle::replay and shuttle::replay_from_file"]},
     # completeness: every outcome of the all-interleavings model must be produced by some schedule
     "C02": {"stages": [F("kernel", 14, 150), F("mutex", 14, 120), F("rwlock", 16, 150), F("atomic", 20, 200),
                        F("condvar", 18, 200), F("park", 20, 150), F("barrier", 20, 150), F("barrier_reuse", 12, 100),
@@ -220,11 +249,11 @@ def stage_programs(fam, n):
     return gen.family(fam, n, vlib.seed())
 
 
-def cached_pipeline(fam, progs, tier, cap, do_mc):
+def cached_pipeline(fam, progs, tier, cap, do_mc, sample=None):
     """Family results are shared between the checks of one tree: the key covers the harness binary
     (rebuilt from /repo's working tree just before), the specification, the tools and the programs."""
     import hashlib
-    key = hashlib.sha256(json.dumps([vlib.bin_hash(), vlib.spec_hash(), fam, tier, cap, do_mc, progs],
+    key = hashlib.sha256(json.dumps([vlib.bin_hash(), vlib.spec_hash(), fam, tier, cap, do_mc, sample, vlib.seed(), progs],
                                     sort_keys=True).encode()).hexdigest()[:24]
     cdir = os.path.join(vlib.WORK, "cache")
     os.makedirs(cdir, exist_ok=True)
@@ -236,8 +265,8 @@ def cached_pipeline(fam, progs, tier, cap, do_mc):
             return r
         except Exception:
             pass
-    out = os.path.join(vlib.WORK, f"run-{fam}-{tier}")
-    r = family_pipeline(fam, progs, out, cap=cap, do_mc=do_mc)
+    out = os.path.join(vlib.WORK, f"run-{fam}-{tier}" + ("-s" if sample else ""))
+    r = family_pipeline(fam, progs, out, cap=cap, do_mc=do_mc, sample=sample)
     r.pop("meta", None)
     # keep a few sample traces for the evidence
     r["sample"] = sample_trace(out)
@@ -318,6 +347,36 @@ def run_c16(tier):
     return finish("C16", tier, t0, spec, totals, [], problems, [{"vector": v} for v in sample], known, extra_cov=extra)
 
 
+def run_lemmas(pid, problems):
+    """Model-only checks (binding D) attached to a property; returns (states, transitions, report)."""
+    st = tr = 0
+    rep = []
+    for lm in LEMMAS.get(pid, []):
+        wd = vlib.fresh_dir(os.path.join(vlib.WORK, "lemma-" + lm["name"]))
+        res = vlib.run_tlc(lm["module"], lm["cfg"], lm.get("env", {}), wd, workers=8, timeout=900)
+        st += res["states"]
+        tr += res["transitions"]
+        good = res["ok"] == lm.get("expect_ok", True)
+        rep.append({"lemma": lm["name"], "states": res["states"], "holds": res["ok"], "as_expected": good})
+        if not good:
+            problems.append({"kind": "tlc-error", "where": lm["name"], "errors": res["errors"][:5],
+                             "sig": f"lemma/{lm['name']}", "out": res["out"]})
+    return st, tr, rep
+
+
+LEMMAS = {
+    "C01": [{"name": "replay-determines-execution", "module": "Replay", "cfg": "Replay.cfg",
+             "env": {"PROGS": os.path.join(vlib.VERIF, "corpus", "replay.ndjson"), "BROKEN": "none"}}],
+}
+# anti-vacuity: deliberately broken variants must be refuted (run by `vcheck setup`)
+SELFTESTS = [
+    {"name": "replay-broken-skip-same", "module": "Replay", "cfg": "Replay.cfg", "expect_ok": False,
+     "env": {"PROGS": os.path.join(vlib.VERIF, "corpus", "replay.ndjson"), "BROKEN": "skip_same"}},
+    {"name": "replay-broken-no-marker", "module": "Replay", "cfg": "Replay.cfg", "expect_ok": False,
+     "env": {"PROGS": os.path.join(vlib.VERIF, "corpus", "replay.ndjson"), "BROKEN": "no_marker"}},
+]
+
+
 def run_property(pid, tier):
     if pid == "C16":
         return run_c16(tier)
@@ -337,7 +396,8 @@ def run_property(pid, tier):
         progs = stage_programs(st["fam"], n)
         if not progs:
             continue
-        r = cached_pipeline(st["fam"], progs, tier, cap, st["mc"])
+        smp = st["sample"][0 if tier == "quick" else 1] if st.get("sample") else None
+        r = cached_pipeline(st["fam"], progs, tier, cap, st["mc"], sample=smp)
         fams.append(r["summary"])
         for k, v in r["summary"].items():
             if isinstance(v, (int, float)) and k not in ("wall",) and not k.startswith("t_"):
@@ -347,7 +407,11 @@ def run_property(pid, tier):
                 problems.append(pr)
         if r.get("sample"):
             samples.append({"family": st["fam"], "program": progs[-1], "trace": r["sample"]})
-    return finish(pid, tier, t0, spec, totals, fams, problems, samples, known)
+    lst, ltr, lrep = run_lemmas(pid, problems)
+    totals["mc_states"] = totals.get("mc_states", 0) + lst
+    totals["mc_transitions"] = totals.get("mc_transitions", 0) + ltr
+    return finish(pid, tier, t0, spec, totals, fams, problems, samples, known,
+                  extra_cov={"model_lemmas": lrep} if lrep else None)
 
 
 def finish(pid, tier, t0, spec, totals, fams, problems, samples, known, extra_cov=None):
@@ -382,7 +446,8 @@ def finish(pid, tier, t0, spec, totals, fams, problems, samples, known, extra_co
            "spec_outcomes": int(totals.get("spec_outcomes", 0)),
            "impl_outcomes": int(totals.get("impl_outcomes", 0)),
            "outcomes_missing_in_spec": int(totals.get("outcomes_missing_in_spec", 0)),
-           "exhaustive": totals.get("capped", 0) == 0,
+           "replays_compared": int(totals.get("replays", 0)),
+           "exhaustive": totals.get("capped", 0) == 0 and not totals.get("replays", 0),
            "programs_capped": int(totals.get("capped", 0)),
            "families": fams,
            "known_findings_hit": known_hit,
